@@ -25,7 +25,7 @@ package common
 
 //@ func SumPriorities
 //@   ensures [* C14] result == lsum(priorities, len(priorities))
-//@   assume-arith add-overflow[1]
+//@   assume-arith add-overflow[*]
 //@   loop 0
 //@     invariant [*] sum == lsum(priorities, $i)
 
